@@ -87,6 +87,12 @@ def run(rec):
     for fn in ("every function of engine.cpp and the eight headers reachable from the exported C ABI (initialize_grid/graph, iterate, iterate_n, run, sample, get_progress, get_nsamples, get_trajectory, get_tsample, get_state, finalize)",):
         rec.encoded(fn)
     rec.parallel(_work, [_jsonable(s) for s in scenarios(rec.tier, rec.seed)])
+    # the ABI sequences above respect the life cycle (nothing but finalize / a new set-up after a finalize); the Python wrapper must
+    # not leave it on its own: reclaiming an engine object must not release the process-wide simulation (enumerated wrapper leg)
+    rec.assume("wrapper leg: LibRDEngine objects used one after the other on a reference stand-in for the CDLL; reclaiming an object (del + gc.collect) must issue no native call")
+    rec.encoded("LibRDEngine.__init__/setup/iterate/finalize and object reclamation (py, enumerated)")
+    from .C10_py import drop_leg
+    drop_leg(rec, "C11")
 
 
 def _jsonable(s):
